@@ -37,6 +37,10 @@ RULES = {
     'C13.i': 'the conflict-record lister matches what the record writer writes: with the key left empty (the "list all" call of the arbiter registration) the pattern text occurs in the constant head of every record key; with a key, the text after the key hole is a prefix of the writer template\'s text after its key hole',
     'C13.k': 'the conflict records of a key are handled in arrival order: the key listing they are read from is sorted (C01.c) — the '
              'Arbiter arm queues a new conflict behind `.last()` of that list, register_arbiter replays it in list order',
+    'C13.m': 'the in-conflict marker is written as a CHANGE of the entry: the state operand of the marker write is the state the refusal carries '
+             '(VersionError.state, which the store computed with the update-state function, C06.l), never the stored entry\'s own state — a key '
+             'that is clean on disk would stay Ok, the incremental snapshot skips it, and after a restart the conflict record is there but the key '
+             'is not frozen: later writes are applied without the arbiter',
     'C13.l': 'a client cannot present the in-conflict marker as its version (C02.h, repeated): such a write is stored as it comes, over a pending conflict, with no record and no notice to the arbiter',
 }
 
@@ -155,6 +159,19 @@ def _run(ck, m):
     ck.ob('C13.a', fn, 'marker-keeps-old-value', okm,
           'the marker write stores old_value.value under change.key with the in-conflict version' if okm else
           'the marker write does not store (change.key, old_value.value, marker)', rb.loc(raw_writer[0]) if raw_writer else rb.loc(arb))
+    # ... and is written as a change of the entry (its state comes from the refusal, not from the stored entry)
+    oks, whys = False, 'no marker write found'
+    if raw_writer:
+        t = rb.term(raw_writer[0])
+        st_roots = origins(rb, t['args'][4]) if len(t['args']) > 4 else set()
+        paths = [[q[2] for q in r[-1] if q[0] == 'f'] for r in st_roots if r[0] == 'param']
+        from_refusal = bool(paths) and len(paths) == len(st_roots) and all(p_ and p_[-1] == 'state' and 'old_value' not in p_ for p_ in paths)
+        oks = from_refusal
+        whys = ('the marker write takes its state from the refusal (VersionError.state)' if oks else
+                'the marker write takes its state from %s: for a key that is clean on disk the marker version exists in memory only (state Ok is never '
+                'selected by the incremental snapshot); after a restart the $conflicts_ record is pending but the key carries its old version and '
+                'accepts writes' % sorted({'.'.join(p_) for p_ in paths} or {r[0] for r in st_roots}))
+    ck.ob('C13.m', fn, 'marker-written-with-the-refusal-state', oks, whys, rb.loc(raw_writer[0]) if raw_writer else rb.loc(arb))
     # record key named in the error is the record written
     # (the error message template takes the conflict key that was handed to the record change)
     # ---- (b) ---------------------------------------------------------------------------
